@@ -40,7 +40,7 @@ RULE = (
 KINDS = ("msg1", "msg2", "parse", "reader")
 # operations whose observation must equal the reference of ANOTHER kind: the message a reader
 # hands out after the same reader has reported an error is the message the static parser gives
-EQUIV = {"reader-after-error": "parse", "reader-after-filler": "parse"}
+EQUIV = {"reader-after-error": "parse", "reader-after-filler": "parse", "reader-rebound": "parse"}
 
 
 def snapshot():
@@ -85,13 +85,27 @@ def observe(payload, kind):
             frame = pinned.frame(payload)
             bad = frame[:-1] + bytes([frame[-1] ^ 0x01])
             rdr = RTCMReader(io.BytesIO(bad + frame), quitonerror=2)
+            it = iter(rdr)  # the caller keeps ONE iterator object across the exception
             try:
-                rdr.read()  # the damaged copy: raises in this mode; the caller carries on
+                next(it)  # the damaged copy: raises in this mode; the caller carries on
             except lib_exceptions():
                 pass
-            _raw, msg = rdr.read()
+            try:
+                _raw, msg = next(it)
+            except StopIteration:
+                return ("exc", "NoMessage", 0)
             if msg is None:
                 return ("exc", "NoMessage", 0)
+        elif kind == "reader-rebound":
+            # two readers, one after the other, over the SAME stream object (the first is dropped)
+            frame = pinned.frame(payload)
+            stream = io.BytesIO(frame + frame)
+            first = RTCMReader(stream, quitonerror=0)
+            first.read()
+            del first
+            _raw, msg = RTCMReader(stream, quitonerror=0).read()
+            if msg is None:
+                msg = RTCMReader.parse(frame)
         else:
             errs = []
             # a mixed stream: NMEA sentence, frame, UBX frame, frame (the reader's protocol
@@ -578,6 +592,7 @@ def run(tier, seed, t0):
     for it in corp:
         cases_.append({"kind": "hist", "history": [(it["payload"], "reader-after-error")], "snap_each": True})
         cases_.append({"kind": "hist", "history": [(it["payload"], "reader-after-filler")], "snap_each": True})
+        cases_.append({"kind": "hist", "history": [(it["payload"], "reader-rebound")], "snap_each": True})
     for a, b in itertools.product(conflict, repeat=2):
         for ka, kb in itertools.product(KINDS + ("reader-after-error",), repeat=2):
             if (ka, kb) != ("msg1", "msg1"):
